@@ -1,2 +1,243 @@
-(* C13 — placeholder while the proofs are being written *)
-From LW Require Import Base.Num.
+(* C13 — the qubit gate library implements the gates it names.
+   Statements only; every proof is [exact <lemma>] (Proofs/GatesP.v, Base/NumField.v).
+
+   Vocabulary (Model/Gates.v):
+   * [gate_X ...] : the constructor of lightworks.qubit.X transcribed as the API calls it makes
+     (Unitary, herald, Circuit, add(group=True), mode_swaps), run through the Circuit/World
+     model and compiled: a [gate] = (circuit object with its heralds, dimension, U_full).
+   * [sim_amp o gt i x] : the entry Simulator.simulate returns for the user-visible input [i]
+     and output [x] (Model/Fock.v, C03): heralds inserted on the herald modes, amplitude =
+     permanent / sqrt(factor), returned as the pair (permanent, factor).  On dual-rail states
+     (one photon per occupied mode, heralds of 0 or 1 photon) the factor is 1, so the permanent
+     IS the amplitude; this is part of each statement.
+   * [bits n] all bit strings, [dr b] the dual-rail state of b, [undr] its partial inverse,
+     [zstates m n] all states of n photons on m modes.
+   * [spec_*] (Section Spec / SpecMulti of Model/Gates.v): the textbook matrices, written
+     independently of the constructors; tabulated in the Examples at the end.
+   * scalars: [oA]/[cA] = Q(sqrt 2, sqrt 3, sqrt 7)(i), [oB]/[cB] = Q(sqrt 2, 2^(1/4), gamma)(i)
+     (Base/NumField.v); [C13_number_fields] shows the generators satisfy their defining
+     relations, [C13_evaluation_*] that evaluation into Coq's real/complex numbers is a
+     *-ring homomorphism, so every equation below is an equation between complex numbers. *)
+From Coq Require Import ZArith List Bool Arith Lia Reals QArith Qcanon.
+From LW Require Import Base.Sx Base.Num Base.Sums Base.Mat Base.QI2 Base.NumField Base.RInst
+     Model.State Model.Circuit Model.World Model.Fock Model.Gates Proofs.GatesP.
+Import ListNotations.
+Open Scope nat_scope.
+
+(* ---- the number fields contain the constants the constructors use ---- *)
+Theorem C13_number_fields :
+  (* tower A *)
+  kmul oA a_r2 a_r2 = kofZ oA 2 /\ kmul oA a_r3 a_r3 = kofZ oA 3 /\ kmul oA a_r7 a_r7 = kofZ oA 7 /\
+  kmul oA a_h a_r2 = k1 oA /\ kmul oA a_r3i a_r3 = k1 oA /\
+  (* tower B: q^2 = sqrt 2, q^4 = 2, gamma^2 = 3/sqrt 2 - 2 *)
+  kmul oB b_r2 b_r2 = kofZ oB 2 /\ kmul oB b_q b_q = b_r2 /\
+  kmul oB (kmul oB b_q b_q) (kmul oB b_q b_q) = kofZ oB 2 /\
+  kmul oB b_g b_g = ksub oB (kmul oB (kofZ oB 3) b_h) (kofZ oB 2) /\
+  kmul oB b_h b_r2 = k1 oB /\ kmul oB b_qi b_q = k1 oB.
+Proof.
+  exact (conj a_r2_sq (conj a_r3_sq (conj a_r7_sq (conj a_h_r2 (conj a_r3i_r3
+        (conj b_r2_sq (conj b_q_sq (conj b_q_pow4 (conj b_g_sq (conj b_h_r2 b_qi_q)))))))))).
+Qed.
+Print Assumptions C13_number_fields.
+
+(* ---- single-qubit gates: I H X Y Z S Sadj T Tadj SX ----
+   for every commutative *-ring and every h with h*h = 1/2 (h = 1/sqrt 2): the gate is a
+   2-mode circuit without heralds and the amplitude dr b -> dr b' is EXACTLY the named
+   matrix entry (k = 1), factor 1. *)
+Theorem C13_single_qubit_gates :
+  forall (K : Type) (o : ops K), StarRing o ->
+  forall (h : K), kmul o h h = kq o 1 2 ->
+  forall g : sq,
+    exists gt, gate_sq o h g = Ok gt /\
+      c_in (g_circ gt) = [] /\ c_out (g_circ gt) = [] /\ c_n (g_circ gt) = 2 /\
+      forall b b', In b (bits 1) -> In b' (bits 1) ->
+        sim_amp o gt (dr b) (dr b') = Ok (named_sq o h g (idx1 b') (idx1 b), 1).
+Proof. exact (fun K o SR h Hh g => @sq_acts K o SR h g Hh). Qed.
+Print Assumptions C13_single_qubit_gates.
+
+(* ---- rotations P, Rx, Ry, Rz for EVERY amplitude pair (c, s) ----
+   (c, s) = (cos(theta/2), sin(theta/2)); P: (cos theta, sin theta).  The named matrix is
+   R_A(theta) = cos(theta/2) I - i sin(theta/2) A (A the Pauli matrix), P = diag(1, e^{i theta}).
+   With c^2 + s^2 = 1 the array handed to Unitary is unitary. *)
+Theorem C13_rotation_gates :
+  forall (K : Type) (o : ops K), StarRing o ->
+  forall (g : rq) (c s : K),
+    (exists gt, gate_rq o g c s = Ok gt /\
+       c_in (g_circ gt) = [] /\ c_out (g_circ gt) = [] /\ c_n (g_circ gt) = 2 /\
+       forall b b', In b (bits 1) -> In b' (bits 1) ->
+         sim_amp o gt (dr b) (dr b') = Ok (named_rq o g c s (idx1 b') (idx1 b), 1)) /\
+    (kadd o (kmul o c c) (kmul o s s) = k1 o -> unitary (cplx o) 2 (of_rows (cplx o) (rq_rows o g c s))).
+Proof. exact (fun K o SR g c s => conj (@rq_acts K o SR g c s) (@rq_unitary K o SR g c s)). Qed.
+Print Assumptions C13_rotation_gates.
+
+(* the same over the complex numbers C = R*R of Coq's reals, for EVERY real angle theta,
+   and the fixed gates with h = 1/sqrt 2 *)
+Theorem C13_rotation_gates_all_real_angles :
+  forall (g : rq) (theta : R),
+    (exists gt, gate_rq rops g (cos (theta / 2)) (sin (theta / 2)) = Ok gt /\
+       c_in (g_circ gt) = [] /\ c_out (g_circ gt) = [] /\ c_n (g_circ gt) = 2 /\
+       forall b b', In b (bits 1) -> In b' (bits 1) ->
+         sim_amp rops gt (dr b) (dr b')
+         = Ok (named_rq rops g (cos (theta / 2)) (sin (theta / 2)) (idx1 b') (idx1 b), 1)) /\
+    unitary cops 2 (of_rows cops (rq_rows rops g (cos (theta / 2)) (sin (theta / 2)))).
+Proof. exact rot_real. Qed.
+Print Assumptions C13_rotation_gates_all_real_angles.
+
+Theorem C13_single_qubit_gates_complex :
+  forall g : sq,
+    exists gt, gate_sq rops (/ sqrt 2)%R g = Ok gt /\
+      c_in (g_circ gt) = [] /\ c_out (g_circ gt) = [] /\ c_n (g_circ gt) = 2 /\
+      forall b b', In b (bits 1) -> In b' (bits 1) ->
+        sim_amp rops gt (dr b) (dr b') = Ok (named_sq rops (/ sqrt 2)%R g (idx1 b') (idx1 b), 1).
+Proof. exact sq_real. Qed.
+Print Assumptions C13_single_qubit_gates_complex.
+
+(* ---- SWAP((a0,a1),(b0,b1)) for ALL pairwise distinct modes (unbounded) ----
+   the circuit has max+1 modes, no heralds, compiles to the permutation matrix of the swap,
+   and maps the state with qubit 1 = p, qubit 2 = q (one photon on rail p of (a0,a1), one on
+   rail q of (b0,b1)) to qubit 1 = q, qubit 2 = p with amplitude exactly 1: k = 1. *)
+Theorem C13_SWAP_all_mode_pairs :
+  forall (K : Type) (o : ops K), StarRing o ->
+  forall a0 a1 b0 b1 : nat, NoDup [a0; a1; b0; b1] ->
+    let n := S (Nat.max (Nat.max (Nat.max a0 a1) b0) b1) in
+    exists gt, gate_SWAP o (zq a0 a1) (zq b0 b1) = Ok gt /\
+      c_n (g_circ gt) = n /\ c_in (g_circ gt) = [] /\ c_out (g_circ gt) = [] /\
+      meq n (g_U gt) (perm_mat (cplx o) (swap_perm a0 a1 b0 b1)) /\
+      forall p q p' q' : bool,
+        sim_amp o gt (zstate (two_photons n (rail p a0 a1) (rail q b0 b1)))
+                     (zstate (two_photons n (rail p' a0 a1) (rail q' b0 b1)))
+        = Ok (spec_SWAP (cplx o) [p'; q'] [p; q], 1).
+Proof. exact (fun K o SR a0 a1 b0 b1 ND => @SWAP_acts K o SR a0 a1 b0 b1 ND). Qed.
+Print Assumptions C13_SWAP_all_mode_pairs.
+
+(* ---- post-selected CZ: all 4 dual-rail inputs x all 4 dual-rail outputs, heralds (0 photons
+        on modes 0 and 5) satisfied: amplitude = k * CZ[b',b] with 9 * |k|^2 = 1 ---- *)
+Theorem C13_CZ :
+  exists gt k, gate_CZ oA a_r2 a_r3i = Ok gt /\
+    kmul cA (kofZ cA 9) (kmul cA k (kconj cA k)) = k1 cA /\
+    forall b b', In b (bits 2) -> In b' (bits 2) ->
+      sim_amp oA gt (dr b) (dr b') = Ok (kmul cA k (spec_CZ cA b' b), 1).
+Proof. exact CZ_acts. Qed.
+Print Assumptions C13_CZ.
+
+(* ---- post-selected CNOT, both target options ---- *)
+Theorem C13_CNOT :
+  forall tq : Z, In tq [0; 1]%Z ->
+  exists gt k, gate_CNOT oA a_h a_r2 a_r3i tq = Ok gt /\
+    kmul cA (kofZ cA 9) (kmul cA k (kconj cA k)) = k1 cA /\
+    forall b b', In b (bits 2) -> In b' (bits 2) ->
+      sim_amp oA gt (dr b) (dr b') = Ok (kmul cA k (spec_CNOT cA (Z.to_nat tq) b' b), 1).
+Proof. exact CNOT_acts. Qed.
+Print Assumptions C13_CNOT.
+
+(* ---- CCZ: all 8 x 8 dual-rail pairs, heralds (0 photons on modes 0,1,8,9): 72 * |k|^2 = 1 ---- *)
+Theorem C13_CCZ :
+  exists gt k, gate_CCZ oA a_h a_r2 a_r3i a_r7 = Ok gt /\
+    kmul cA (kofZ cA 72) (kmul cA k (kconj cA k)) = k1 cA /\
+    forall b b', In b (bits 3) -> In b' (bits 3) ->
+      sim_amp oA gt (dr b) (dr b') = Ok (kmul cA k (spec_CCZ cA b' b), 1).
+Proof. exact CCZ_acts. Qed.
+Print Assumptions C13_CCZ.
+
+(* ---- CCNOT, all three target options ---- *)
+Theorem C13_CCNOT :
+  forall tq : Z, In tq [0; 1; 2]%Z ->
+  exists gt k, gate_CCNOT oA a_h a_r2 a_r3i a_r7 tq = Ok gt /\
+    kmul cA (kofZ cA 72) (kmul cA k (kconj cA k)) = k1 cA /\
+    forall b b', In b (bits 3) -> In b' (bits 3) ->
+      sim_amp oA gt (dr b) (dr b') = Ok (kmul cA k (spec_CCNOT cA (Z.to_nat tq) b' b), 1).
+Proof. exact CCNOT_acts. Qed.
+Print Assumptions C13_CCNOT.
+
+(* ---- CZ_Heralded: heralds 0,1,1,0 photons on modes 0,1,6,7.  16 * |k|^2 = 1, and EVERY
+        accepted output (heralds satisfied, 2 photons on the 4 qubit modes: [zstates 4 2], all
+        10 of them) that is not a dual-rail state has amplitude 0 ---- *)
+Theorem C13_CZ_Heralded :
+  exists gt k, gate_CZ_Heralded oB b_h b_r2 b_qi b_g = Ok gt /\
+    kmul cB (kofZ cB 16) (kmul cB k (kconj cB k)) = k1 cB /\
+    (forall b b', In b (bits 2) -> In b' (bits 2) ->
+       sim_amp oB gt (dr b) (dr b') = Ok (kmul cB k (spec_CZ cB b' b), 1)) /\
+    (forall b t, In b (bits 2) -> In t (zstates 4 2) -> undr t = None ->
+       exists f, sim_amp oB gt (dr b) t = Ok (k0 cB, f)).
+Proof. exact CZH_full. Qed.
+Print Assumptions C13_CZ_Heralded.
+
+Theorem C13_CNOT_Heralded :
+  forall tq : Z, In tq [0; 1]%Z ->
+  exists gt k, gate_CNOT_Heralded oB b_h b_r2 b_qi b_g tq = Ok gt /\
+    kmul cB (kofZ cB 16) (kmul cB k (kconj cB k)) = k1 cB /\
+    (forall b b', In b (bits 2) -> In b' (bits 2) ->
+       sim_amp oB gt (dr b) (dr b') = Ok (kmul cB k (spec_CNOT cB (Z.to_nat tq) b' b), 1)) /\
+    (forall b t, In b (bits 2) -> In t (zstates 4 2) -> undr t = None ->
+       exists f, sim_amp oB gt (dr b) t = Ok (k0 cB, f)).
+Proof. exact CNOTH_full. Qed.
+Print Assumptions C13_CNOT_Heralded.
+
+(* ---- an invalid target_qubit is refused with ValueError (every scalar type) ---- *)
+Theorem C13_invalid_target_rejected :
+  forall (K : Type) (o : ops K) (h r2 r3i qi g r7 : K) (tq : Z),
+    ((tq < 0)%Z \/ (2 <= tq)%Z -> gate_CNOT o h r2 r3i tq = Err ValueError /\
+                                   gate_CNOT_Heralded o h r2 qi g tq = Err ValueError) /\
+    ((tq < 0)%Z \/ (3 <= tq)%Z -> gate_CCNOT o h r2 r3i r7 tq = Err ValueError).
+Proof. exact (fun K o => @bad_target K o). Qed.
+Print Assumptions C13_invalid_target_rejected.
+
+(* ---- modes and heralds of the compiled gates:
+        (n_modes, input_modes, input heralds, output heralds, dim U_full) ---- *)
+Theorem C13_gate_shapes :
+  shape (gate_CZ oA a_r2 a_r3i) = Some (6, 4, [(0, 0); (5, 0)], [(0, 0); (5, 0)], 6) /\
+  (forall tq, In tq [0; 1]%Z ->
+     shape (gate_CNOT oA a_h a_r2 a_r3i tq) = Some (6, 4, [(0, 0); (5, 0)], [(0, 0); (5, 0)], 6)) /\
+  shape (gate_CZ_Heralded oB b_h b_r2 b_qi b_g)
+    = Some (8, 4, [(0, 0); (1, 1); (6, 1); (7, 0)], [(0, 0); (1, 1); (6, 1); (7, 0)], 8) /\
+  (forall tq, In tq [0; 1]%Z ->
+     shape (gate_CNOT_Heralded oB b_h b_r2 b_qi b_g tq)
+     = Some (8, 4, [(0, 0); (1, 1); (6, 1); (7, 0)], [(0, 0); (1, 1); (6, 1); (7, 0)], 8)) /\
+  shape (gate_CCZ oA a_h a_r2 a_r3i a_r7)
+    = Some (10, 6, [(0, 0); (1, 0); (8, 0); (9, 0)], [(0, 0); (1, 0); (8, 0); (9, 0)], 10) /\
+  (forall tq, In tq [0; 1; 2]%Z ->
+     shape (gate_CCNOT oA a_h a_r2 a_r3i a_r7 tq)
+     = Some (10, 6, [(0, 0); (1, 0); (8, 0); (9, 0)], [(0, 0); (1, 0); (8, 0); (9, 0)], 10)).
+Proof. exact shapes. Qed.
+Print Assumptions C13_gate_shapes.
+
+(* ---- what the names mean: the spec matrices, tabulated ---- *)
+Definition tab2 {T} (M : list bool -> list bool -> T) (n : nat) : list (list T) :=
+  map (fun b' => map (fun b => M b' b) (bits n)) (bits n).
+Definition q1 : Qc := Q2Qc 1.
+Definition q0 : Qc := Q2Qc 0.
+Definition qm : Qc := Q2Qc (-1).
+
+Example C13_bits_order : bits 2 = [[false; false]; [false; true]; [true; false]; [true; true]] /\
+                         dr [true; false] = [0; 1; 1; 0]%Z /\ undr [0; 1; 1; 0]%Z = Some [true; false] /\
+                         undr [2; 0; 0; 0]%Z = None /\ length (zstates 4 2) = 10.
+Proof. repeat split. Qed.
+
+Example C13_spec_CZ_table : tab2 (spec_CZ qcops) 2 = [[q1; q0; q0; q0]; [q0; q1; q0; q0]; [q0; q0; q1; q0]; [q0; q0; q0; qm]].
+Proof. reflexivity. Qed.
+Example C13_spec_CNOT_table :   (* target 1 = the second qubit; target 0 = the first *)
+  tab2 (spec_CNOT qcops 1) 2 = [[q1; q0; q0; q0]; [q0; q1; q0; q0]; [q0; q0; q0; q1]; [q0; q0; q1; q0]] /\
+  tab2 (spec_CNOT qcops 0) 2 = [[q1; q0; q0; q0]; [q0; q0; q0; q1]; [q0; q0; q1; q0]; [q0; q1; q0; q0]].
+Proof. split; reflexivity. Qed.
+Example C13_spec_SWAP_table : tab2 (spec_SWAP qcops) 2 = [[q1; q0; q0; q0]; [q0; q0; q1; q0]; [q0; q1; q0; q0]; [q0; q0; q0; q1]].
+Proof. reflexivity. Qed.
+Example C13_spec_CCNOT_table :   (* Toffoli, target 2: exchanges |110> and |111> *)
+  forall b' b, In b (bits 3) -> In b' (bits 3) ->
+    spec_CCNOT qcops 2 b' b =
+    (if bits_eqb b [true; true; false] then delta qcops b' [true; true; true]
+     else if bits_eqb b [true; true; true] then delta qcops b' [true; true; false]
+     else delta qcops b' b).
+Proof.
+  intros b' b Hb Hb'. simpl in Hb, Hb'.
+  repeat (destruct Hb as [<-|Hb]; [repeat (destruct Hb' as [<-|Hb']; [reflexivity|]); destruct Hb'|]).
+  destruct Hb.
+Qed.
+
+(* the hypotheses are satisfiable: h = 1/sqrt 2 of tower A, distinct modes *)
+Example C13_hypotheses_satisfiable :
+  kmul oA a_h a_h = kq oA 1 2 /\ NoDup [5; 1; 2; 9] /\ (cos (0 / 2) * cos (0 / 2) + sin (0 / 2) * sin (0 / 2) = 1)%R.
+Proof.
+  split; [apply (@by_eqb _ oA oA_unit); vm_compute; reflexivity|].
+  split; [repeat constructor; simpl; intuition lia|].
+  replace (0 / 2)%R with 0%R by (unfold Rdiv; ring). rewrite cos_0, sin_0. ring.
+Qed.
